@@ -1312,6 +1312,10 @@ func runL2(args []string) {
 			rep.addHolds("C16", f)
 		}
 		hyp["build-build-run-orders"] = 7
+		for _, w := range wrappedArgs() {
+			rep.addHolds("C08", Finding{Case: map[string]any{"directed": "argument list passed as one []any"}, Kind: "holds", Detail: w})
+		}
+		hyp["wrapped-argument-lists"] = 28
 	}
 	hyp["concurrent-growth-calls"] = concurrentGrowth(rep)
 	hyp["concurrent-first-use-types"] = concurrentFirstUse(rep, cl, r.Fork())
